@@ -235,6 +235,13 @@ def integration_shard(seed: int, scenarios: int, known: list[str]) -> dict:
                     app.orchestrator.should_run_atomic_service(c)
                 if not same_instant:
                     clock.advance(rnd.choice([0.25, 1.0, 3.5]))
+            # a runner that stalls (no poll) for a while - shorter than the heartbeat timeout, so it is still alive - and resumes
+            stall: dict[int, tuple[float, float]] = {}
+            cands = [x for x in (70.0, 150.0, 300.0) if x < dead_after * 60 * 0.9]
+            if cands and rnd.random() < 0.6:
+                who = rnd.choice([i for i in range(n) if i not in silent] or [0])
+                t_a = clock.time() + rnd.choice([5.0, 40.0, 90.0])
+                stall[who] = (t_a, t_a + rnd.choice(cands))
             t_end = clock.time() + interval * 60 * 2 + dead_after * 60
             step = interval * 60 / rnd.choice([7, 13, 29])
             while clock.time() < t_end:
@@ -243,14 +250,14 @@ def integration_shard(seed: int, scenarios: int, known: list[str]) -> dict:
                 for kind, app in pair.items():
                     ans = []
                     for i, c in enumerate(ctxs):
-                        if i in silent:
+                        if i in silent or (i in stall and stall[i][0] <= clock.time() < stall[i][1]):
                             ans.append(None)
                             continue
                         ans.append(bool(app.orchestrator.should_run_atomic_service(c)))
                     answers[kind] = ans
                     active = len(app.orchestrator.get_active_runners(can_run_atomic_service=True))
                 case = {"n": n, "interval_min": interval, "margin_min": margin, "silent": sorted(silent), "t": clock.time(), "answers": answers, "same_instant_start": same_instant}
-                part.case(key=(sc, seed, clock.us), nontrivial=active >= 2, classes=[f"active{active}", f"n{n}", "same_instant_start" if same_instant else "staggered_start"], sample=case)
+                part.case(key=(sc, seed, clock.us), nontrivial=active >= 2, classes=[f"active{active}", f"n{n}", "same_instant_start" if same_instant else "staggered_start", "with_stalling_runner" if stall else "no_stall"], sample=case)
                 for kind, ans in answers.items():
                     if sum(1 for a in ans if a) > 1:
                         key = f"integration:two-authorised:{kind}"
@@ -274,7 +281,7 @@ def run(ctx: Ctx) -> None:
     ctx.parts["grid"].rule += f" (Nmax={nmax}, G={grid})"
     ex = 1500 if ctx.quick else 40000
     merge_parts(ctx, pmap(float_shard, [(ctx.seed * 1000 + k, ex, known) for k in range(shards)]))
-    sc = 3 if ctx.quick else 25
+    sc = 12 if ctx.quick else 60
     merge_parts(ctx, pmap(integration_shard, [(ctx.seed * 1000 + k, sc, known) for k in range(shards)]))
     ctx.assumptions.append("reference windows are computed in exact rationals from the float configuration values; the float implementation may differ from the model only within 1us of a boundary, and never by authorising two runners")
     ctx.assumptions.append("integration slice: module-level time/datetime names of the orchestrators replaced by a stepped virtual clock")
